@@ -1,1 +1,147 @@
-(* C05 - to be filled *)
+(* C05 - linker symbols are complete, named as documented, and mutually consistent.
+   The documented spellings are written by hand from /repo/docs/file_format/settings.md
+   (linker_symbols_style: valid values), segments.md, vram_classes.md and file.md (linker_offset_name);
+   nothing here refers to Model/Style.v or Model/Generated.v. *)
+From Slinky Require Import Model.Types Model.Runtime Model.Script Model.Writer Model.LdSem.
+From Slinky Require Import Spec.C13.
+From Coq Require Import ZArith.
+Local Open Scope string_scope.
+
+(* ---------- the documented names ---------- *)
+
+(* splat: the section name upper-cased with "." replaced by "_": .text -> _TEXT *)
+Definition doc_section_upper (sec : string) : string := to_upper (replace_char "." "_" sec).
+
+(* makerom: the section name without its leading ".", first letter capitalised: .text -> Text;
+   .rodata is spelled RoData *)
+Definition doc_strip_dot (s : string) : string :=
+  match s with String "." r => r | _ => s end.
+Definition doc_capitalize (s : string) : string :=
+  match s with EmptyString => "" | String c r => String (upper_ascii c) r end.
+Definition doc_section_camel (sec : string) : string :=
+  if String.eqb sec ".rodata" then "RoData" else doc_capitalize (doc_strip_dot sec).
+
+Definition doc_rom_start (sty : style) (seg : string) : string :=
+  match sty with Splat => seg ++ "_ROM_START" | Makerom => "_" ++ seg ++ "SegmentRomStart" end.
+Definition doc_rom_end (sty : style) (seg : string) : string :=
+  match sty with Splat => seg ++ "_ROM_END" | Makerom => "_" ++ seg ++ "SegmentRomEnd" end.
+Definition doc_rom_size (sty : style) (seg : string) : string :=
+  match sty with Splat => seg ++ "_ROM_SIZE" | Makerom => "_" ++ seg ++ "SegmentRomSize" end.
+Definition doc_vram_start (sty : style) (seg : string) : string :=
+  match sty with Splat => seg ++ "_VRAM" | Makerom => "_" ++ seg ++ "SegmentStart" end.
+Definition doc_vram_end (sty : style) (seg : string) : string :=
+  match sty with Splat => seg ++ "_VRAM_END" | Makerom => "_" ++ seg ++ "SegmentEnd" end.
+Definition doc_vram_size (sty : style) (seg : string) : string :=
+  match sty with Splat => seg ++ "_VRAM_SIZE" | Makerom => "_" ++ seg ++ "SegmentSize" end.
+Definition doc_section_start (sty : style) (seg sec : string) : string :=
+  match sty with
+  | Splat => seg ++ doc_section_upper sec ++ "_START"
+  | Makerom => "_" ++ seg ++ "Segment" ++ doc_section_camel sec ++ "Start"
+  end.
+Definition doc_section_end (sty : style) (seg sec : string) : string :=
+  match sty with
+  | Splat => seg ++ doc_section_upper sec ++ "_END"
+  | Makerom => "_" ++ seg ++ "Segment" ++ doc_section_camel sec ++ "End"
+  end.
+Definition doc_section_size (sty : style) (seg sec : string) : string :=
+  match sty with
+  | Splat => seg ++ doc_section_upper sec ++ "_SIZE"
+  | Makerom => "_" ++ seg ++ "Segment" ++ doc_section_camel sec ++ "Size"
+  end.
+Definition doc_linker_offset (sty : style) (name : string) : string :=
+  match sty with Splat => name ++ "_OFFSET" | Makerom => "_" ++ name ++ "Offset" end.
+Definition doc_class_start (sty : style) (name : string) : string :=
+  match sty with Splat => name ++ "_VRAM_CLASS_START" | Makerom => "_" ++ name ++ "VramClassStart" end.
+Definition doc_class_end (sty : style) (name : string) : string :=
+  match sty with Splat => name ++ "_VRAM_CLASS_END" | Makerom => "_" ++ name ++ "VramClassEnd" end.
+Definition doc_class_size (sty : style) (name : string) : string :=
+  match sty with Splat => name ++ "_VRAM_CLASS_SIZE" | Makerom => "_" ++ name ++ "VramClassSize" end.
+
+(* the allocatable / noload halves are named like a segment called <seg>_alloc / <seg>_noload *)
+Definition doc_kind_name (seg : string) (noload : bool) : string :=
+  seg ++ (if noload then "_noload" else "_alloc").
+
+(* ---------- the symbols of one emitted segment, in script order ---------- *)
+
+Section Expected.
+  Variable sty : style.
+  Variable cfg : wcfg.
+  Variable seg : segment.
+
+  (* one section group: start, the linker offsets of the files of the group, end, size *)
+  Definition section_symbols (sec : string) (offs : list string) : list string :=
+    ((if section_syms cfg then [doc_section_start sty (sg_name seg) sec] else []) ++
+     offs ++
+     (if section_syms cfg
+      then [doc_section_end sty (sg_name seg) sec; doc_section_size sty (sg_name seg) sec] else []))%list.
+
+  (* one half of the segment: kind start, its groups, kind end, kind size *)
+  Definition part_symbols (noload : bool) (secs : list (string * list string)) : list string :=
+    ((if kind_syms cfg then [doc_vram_start sty (doc_kind_name (sg_name seg) noload)] else []) ++
+     flat_map (fun so => section_symbols (fst so) (snd so)) secs ++
+     (if kind_syms cfg
+      then [doc_vram_end sty (doc_kind_name (sg_name seg) noload);
+            doc_vram_size sty (doc_kind_name (sg_name seg) noload)] else []))%list.
+
+  (* [first_of_class]: the segment is the first emitted member of its vram class.
+     [alloc], [noload]: the configured sections of each half with the linker offsets recorded in
+     their groups *)
+  Definition expected_segment_symbols (first_of_class : bool)
+             (alloc noload : list (string * list string)) : list string :=
+    ((match sg_vram_class seg with
+      | Some cn => if first_of_class then [doc_class_start sty cn; doc_class_end sty cn] else []
+      | None => []
+      end) ++
+     [doc_rom_start sty (sg_name seg); doc_vram_start sty (sg_name seg)] ++
+     part_symbols false alloc ++
+     part_symbols true noload ++
+     [doc_vram_end sty (sg_name seg); doc_vram_size sty (sg_name seg);
+      doc_rom_end sty (sg_name seg); doc_rom_size sty (sg_name seg)])%list.
+End Expected.
+
+(* the linker offsets of a group come from the segment's included linker-offset entries *)
+Definition doc_offset_of (rt : runtime) (sty : style) (seg : segment) (sym : string) : Prop :=
+  exists name, In name (segment_offset_names rt seg) /\ sym = doc_linker_offset sty name.
+
+(* ---------- link level: the statements the files of a group are made of ---------- *)
+
+(* an input statement, a pad, or the definition of a linker offset as "." *)
+Definition group_stmt (sty : style) (offs : string -> Prop) (s : stmt) : Prop :=
+  match s with
+  | SInput _ _ _ _ _ => True
+  | SDotAdd _ => True
+  | SAssign false false true n EDot => exists name, offs name /\ n = doc_linker_offset sty name
+  | _ => False
+  end.
+
+Local Open Scope Z_scope.
+
+(* a symbol defined with a value in [lo, hi] *)
+Definition sym_between (lo hi : Z) (nv : string * Z) : Prop := lo <= snd nv /\ snd nv <= hi.
+
+(* a placement in [lo, hi] carrying the name of its output section *)
+Definition placed_between (lo hi : Z) (outsec : string) (p : placement) : Prop :=
+  lo <= pl_addr p /\ pl_addr p <= hi /\ pl_outsec p = outsec.
+
+(* ---------- the witness of the alloc-start finding ---------- *)
+Local Open Scope string_scope.
+
+Definition c05_obj (p : string) : file_info :=
+  FileInfo p KObject "" 0%N "" "" [] [] "" no_conds KAbsent.
+
+Definition c05_seg (name : string) (vram : N) (files : list file_info) : segment :=
+  Segment name files (Some vram) None None None "" None no_conds [".text"] [".bss"] None
+          None None None None [] [] true None [] KAbsent.
+
+Definition c05_settings : settings :=
+  Settings "" Splat None None None None "char" true [] [] [] false false None None
+           [".text"] [".bss"] None None None None None [] [] true None [].
+
+(* two segments with explicit addresses, the second below the first *)
+Definition c05_doc : document :=
+  Document c05_settings []
+           [c05_seg "a" 4096%N [c05_obj "a.o"]; c05_seg "b" 512%N [c05_obj "b.o"]]
+           None [] [] [].
+
+Definition c05_universe : list usec :=
+  [USec "a.o" None ".text" 256 4 false "a_text"; USec "b.o" None ".text" 16 4 false "b_text"].
